@@ -1434,13 +1434,18 @@ class Node:
         if conn.ident in self.peer_sockets:
             del self.peer_sockets[conn.ident]
         peer = self._find_connection_peer(conn)
-        if peer:
-            # unset so that a new connection may be made later
-            peer.connection = None
-            peer.last_disconnect = int(time.time())
-            # only set if not yet set
-            if peer.disconnect_reason is None:
-                peer.disconnect_reason = disconnect_reason
+        if peer and peer.connection is conn:
+            # fall back on another live connection of the same peer, if the
+            # peer has more than one; otherwise unset so that a new connection
+            # may be made later
+            peer.connection = next(
+                (c for c in self.connections.values()
+                 if self._find_connection_peer(c) is peer), None)
+            if peer.connection is None:
+                peer.last_disconnect = int(time.time())
+                # only set if not yet set
+                if peer.disconnect_reason is None:
+                    peer.disconnect_reason = disconnect_reason
 
         # Remove pending answer tracking; we cannot know if the peer will
         # persist its hop-by-hop IDs over reconnect.
